@@ -91,6 +91,7 @@ type Decoder struct {
 	buf    []byte
 	head   int
 	tail   int
+	depth  int
 	simple bool
 	refer  decoderRefer
 	ref    []structInfo
@@ -369,6 +370,7 @@ func (dec *Decoder) readReferenceObject() (o interface{}, ok bool) {
 // ResetReader reuse decoder instance by specifying another reader.
 func (dec *Decoder) ResetReader(reader io.Reader) *Decoder {
 	dec.reader = reader
+	dec.depth = 0
 	dec.head = 0
 	dec.tail = 0
 	return dec
@@ -377,6 +379,7 @@ func (dec *Decoder) ResetReader(reader io.Reader) *Decoder {
 // ResetBytes reuse decoder instance by specifying another byte array as input.
 func (dec *Decoder) ResetBytes(input []byte) *Decoder {
 	dec.reader = nil
+	dec.depth = 0
 	dec.buf = input
 	dec.head = 0
 	dec.tail = len(input)
@@ -385,6 +388,7 @@ func (dec *Decoder) ResetBytes(input []byte) *Decoder {
 
 // ResetBuffer of the Decoder.
 func (dec *Decoder) ResetBuffer() *Decoder {
+	dec.depth = 0
 	if dec.reader == nil {
 		dec.buf = nil
 	} else {
@@ -422,6 +426,29 @@ func (dec *Decoder) ReadCount() (count int) {
 		return 0
 	}
 	return count
+}
+
+// maxDepth is how deep lists, maps and objects may be nested. Every level is a level of
+// recursion in the decoder: a few megabytes of "a1{a1{a1{..." would exhaust the stack,
+// which is fatal for the whole process.
+const maxDepth = 10000
+
+// enter is called when a list, a map or an object is opened, leave when it is closed.
+// enter returns false (and sets Error) when the nesting is too deep to go on.
+func (dec *Decoder) enter() bool {
+	dec.depth++
+	if dec.depth > maxDepth {
+		if dec.Error == nil {
+			dec.Error = DecodeError("hprose/io: nesting deeper than " + strconv.Itoa(maxDepth) + " levels")
+		}
+		return false
+	}
+	return true
+}
+
+func (dec *Decoder) leave() {
+	dec.depth--
+	dec.Skip()
 }
 
 // prealloc returns how many of count elements may be allocated before they are read.
